@@ -1,6 +1,7 @@
 """C06 — running git through git-ai is indistinguishable from running git (lock-step twin)."""
 import json
 
+import os
 from .base import Prop
 from .c02 import HistoryProp
 from .. import gen, hist
@@ -84,6 +85,10 @@ class C06(HistoryProp):
         h["cfg"]["aliases"] = ALIASES
         h["cfg"]["user_hooks"] = True
         h["cfg"]["extra_p"] = rng.choice([0.2, 0.4, 0.6])
+        if rng.random() < 0.25 or os.environ.get("GAISIM_C06_BOTH"):
+            # the wrapper in a repository that ALSO has git-ai's managed hooks installed: the proxied git is
+            # pointed at the user's own hooks directory (they still run, once; the managed ones do not run twice)
+            h["world"]["mode"] = "both"
         return h
 
     def ops(self, rng, ex, cfg):
